@@ -63,3 +63,57 @@ def emit_all(emit) -> None:
         [c.kind for c in classes if getattr(c, "reverse", None) is not base],
         "kinds of construct.edges whose class overrides EdgeData.reverse()",
     )
+
+    # the validity tests and the find / add logic as written (ast of the current source, comments and docstrings dropped)
+    import ast
+    import inspect
+    import textwrap
+
+    from classy_blocks.items.edges.arcs.arc_base import ArcEdgeBase
+    from classy_blocks.items.edges.edge import Edge
+    from classy_blocks.lists.edge_list import EdgeList
+
+    def fn(obj):
+        return ast.parse(textwrap.dedent(inspect.getsource(obj))).body[0]
+
+    def ret(st):
+        return "return " + ast.unparse(st.value)
+
+    def lines(node):
+        out = []
+        for st in node.body:
+            if isinstance(st, ast.Expr) and isinstance(st.value, ast.Constant):
+                continue  # docstring
+            if isinstance(st, ast.If):
+                body = [b for b in st.body if not isinstance(b, ast.Assign)]
+                out.append("if " + ast.unparse(st.test) + ": " + "; ".join(ret(b) if isinstance(b, ast.Return) else ast.unparse(b) for b in body))
+            elif isinstance(st, ast.Return):
+                out.append(ret(st))
+            elif isinstance(st, ast.For):
+                out.append("for " + ast.unparse(st.target) + " in " + ast.unparse(st.iter))
+                out += lines(st)
+            elif isinstance(st, ast.Raise):
+                out.append("raise " + (st.exc.func.id if isinstance(st.exc, ast.Call) else ast.unparse(st.exc)))
+            elif isinstance(st, ast.Try):
+                out.append("try: " + "; ".join(ast.unparse(b) for b in st.body))
+                for h in st.handlers:
+                    hb = [b for b in h.body if not isinstance(b, ast.If)]
+                    out.append("except " + ast.unparse(h.type) + ": " + "; ".join(ast.unparse(b) for b in hb))
+                    for b in h.body:
+                        if isinstance(b, ast.If):
+                            out.append("if " + ast.unparse(b.test) + ": " + "; ".join(ast.unparse(x) for x in b.body))
+            else:
+                out.append(ast.unparse(st))
+        return out
+
+    emit(
+        "c07SourceTests",
+        "List (String × List String)",
+        [
+            ("Edge.is_valid", lines(fn(Edge.is_valid.fget))),
+            ("ArcEdgeBase.is_valid", lines(fn(ArcEdgeBase.is_valid.fget))),
+            ("EdgeList.find", lines(fn(EdgeList.find))),
+            ("EdgeList.add", lines(fn(EdgeList.add))),
+        ],
+        "the statements of the validity tests and of EdgeList.find / add, unparsed from the current source",
+    )
